@@ -346,6 +346,7 @@ def run(ctx):
         compiler_hash_iteration_sites=audit["iterated"], compiler_hash_iteration_sites_new=new_sites,
         sources_compiled_nondeterministically=len(cfind), nondeterministic_cases=len(nondet)))
 
+    detcomp.cleanup_includes()
     for key, payload in findings.items():
         ctx.violation(f"{key}: {json.dumps(payload)[:300]}", payload, key=key)
     if not findings:
